@@ -99,7 +99,7 @@ def merge_meta(I, a, b, node):
     meta = {}
     for v in (a, b):
         if isinstance(v, Arr):
-            for k in ("spec", "field", "lvl0", "kept", "respec_pad", "analysis_of"):
+            for k in ("spec", "field", "lvl0", "kept", "respec_pad", "analysis_of", "modegrid"):
                 if k in v.meta:
                     if k == "spec" and "spec" in meta and meta["spec"].layout != v.meta["spec"].layout:
                         I.event("typestate", node, "binary operation on arrays in different Fourier layouts (%s vs %s)" % (meta["spec"].layout, v.meta["spec"].layout))
@@ -283,6 +283,8 @@ def _expand_index(I, arr, idx, node):
 def _slice_len(I, sl, dim):
     lo = sl.lo if sl.lo is not None else ZERO
     hi = sl.hi if sl.hi is not None else dim
+    if not (isinstance(lo, Expr) and isinstance(hi, Expr) and isinstance(dim, Expr)):
+        return Unknown("slice with bounds %r:%r" % (sl.lo, sl.hi)), ZERO
     c = const_int(hi)
     if c is not None and c < 0:
         hi = dim + hi
@@ -296,9 +298,19 @@ def _slice_len(I, sl, dim):
     return hi - lo, lo
 
 
+MODE_DIMS = []  # dimensions known to count flattened horizontal modes (reset for every abstract run)
+
+
+def register_mode_dim(d):
+    if isinstance(d, Expr) and not any(d.eq(x) for x in MODE_DIMS):
+        MODE_DIMS.append(d)
+
+
 def _is_mode_count(d):
     cm = d.as_mono() if isinstance(d, Expr) else None
-    return cm is not None and len(cm[1]) == 1 and cm[1][0][0].kind == "fn" and cm[1][0][0].name == "count"
+    if cm is not None and len(cm[1]) == 1 and cm[1][0][0].kind == "fn" and cm[1][0][0].name == "count":
+        return True
+    return isinstance(d, Expr) and d.as_const() is None and any(d.eq(x) for x in MODE_DIMS)
 
 
 def grid_axes(arr):
@@ -366,6 +378,18 @@ def load(I, arr, idx, node, env):
                 if isinstance(r, Arr):
                     return r
                 shape.append(dim)
+            elif arr.meta.get("flatmodes") is not None and axis == arr.ndim - 1:
+                if const_int(it.lo) == 1 and it.hi is None and it.step is None:
+                    # all modes but the first of the row-major flattening: every mode except the mean mode
+                    if I.ctx == "mean":
+                        val = BOT
+                    shape.append(dim - ONE)
+                    register_mode_dim(dim - ONE)
+                    meta.pop("flatmodes", None)
+                    meta.pop("spec", None)
+                    meta["nonmean_of"] = arr
+                else:
+                    raise AnalysisError("%s:%s: subset %r of flattened horizontal modes is not modelled" % (I.cur_mod.name, getattr(node, "lineno", "?"), it))
             else:
                 ln, lo = _slice_len(I, it, dim)
                 if arr.ndim == 1:
@@ -418,6 +442,12 @@ def load(I, arr, idx, node, env):
                     else:
                         # element i of a pointwise function of caller arrays: elem(X) -> at(X, i)
                         val = val.subs({a: alg.fn("at", a.args[0], it, pos=a.pos) for a in ats if a.kind == "fn" and a.name == "elem"})
+            axis += 1
+        elif isinstance(it, Arr) and it.dtype == "bool" and it.meta.get("positions_of") is not None and arr.ndim == 1 and "gen" in arr.meta:
+            pos = it.meta["positions_of"]
+            shape.extend(pos.shape or ())
+            val = arr.meta["gen"](pos.val) if isinstance(pos.val, Expr) else Unknown("gather at positions")
+            meta.pop("gen", None)
             axis += 1
         elif isinstance(it, Arr) and it.dtype == "bool":
             # boolean mask over it.ndim axes
@@ -541,7 +571,7 @@ def store(I, arr, idx, v, node, env):
                 applies = False
             else:
                 applies = applies and (I.decide_pred(mv) if not isinstance(mv, Expr) else I.truth(mv))
-            region.append(alg.fn("count", alg.sym("mask:%s" % (it.meta.get("ident") or it.name or "?")), integer=True, pos=True))
+            region.append(it.meta["count_dim"] if it.meta.get("count_dim") is not None else alg.fn("count", alg.sym("mask:%s" % (it.meta.get("ident") or it.name or "?")), integer=True, pos=True))
             axis += it.ndim
         elif isinstance(it, Arr):
             region.extend(it.shape or ())
@@ -574,6 +604,24 @@ def store(I, arr, idx, v, node, env):
         I.event("dtype", node, "value of kind %s stored into %s whose dtype is %s" % (vd, arr.name, arr.dtype))
     new = arr.copy()
     new.meta = dict(arr.meta)
+    if isinstance(level, tuple) and level[0] == "elem" and arr.ndim == 1 and I.loop_stack and len(items) == 1:
+        # table filled element by element over its whole index range: a[k] = e(k) for k in range(len(a))
+        L = I.loop_stack[-1]
+        iv = alg.atom_expr(L.ivar)
+        if (isinstance(level[1], Expr) and level[1].eq(L.rng.start + iv * L.rng.step) and L.rng.start.is_zero() and L.rng.step.eq(ONE)
+                and dim_eq(L.rng.count, arr.shape[0]) and not I.guard_stack):
+            def gen(k, v=v, ivar=L.ivar):
+                if isinstance(v, I_.Member):
+                    return I_.Member(v.value.subs({ivar: k}), v.cid, v.cname, v.levelish, container=v.container)
+                if isinstance(v, Expr):
+                    return v.subs({ivar: k})
+                return v
+            if isinstance(v, (I_.Member, Expr, bool)):
+                new.meta["gen"] = gen
+                new.meta["table_by_loop"] = L.id
+                g0 = gen(alg.fn("idx", arr.shape[0], integer=True))
+                new.val = g0 if isinstance(g0, Expr) else Unknown("table of %r" % (v,))
+                return new
     if level[0] == "slot":
         return _level_store(I, new, level[1], is_mean_point, sv, node, applies, env)
     if not applies or sv is BOT:
@@ -615,6 +663,9 @@ def store(I, arr, idx, v, node, env):
                 new.val = alg.fn("shifted", sv)
         elif isinstance(new.val, Expr) and isinstance(sv, Expr):
             new.val = alg.fn("upd", new.val, sv)
+        else:
+            new.val = Unknown("array after a partial store of %r" % (v,))
+        new.meta.pop("gen", None)
         new.meta["partial_store"] = True
     return new
 
@@ -679,6 +730,8 @@ def method(I, f, args, kwargs, node):
             if name == "astype" and args and isinstance(args[0], str):
                 r.dtype = args[0]
             return r
+        if name in ("ravel", "flatten", "reshape") and kwargs.get("order") not in (None, "C"):
+            I.event("layout", node, "%s(order=%r): the order of the flattened elements depends on the memory layout of the array, not on its indices" % (name, kwargs.get("order")))
         if name == "ravel":
             t = ONE
             for d in b.shape:
@@ -686,11 +739,23 @@ def method(I, f, args, kwargs, node):
             dt = b.dtype
             if isinstance(b, SymArr):
                 dt = "inherit:%s" % b.name
-            return Arr((t,), b.val, dt, {"ravel_of": b, "param_derived": b.meta.get("param") or b.meta.get("param_derived")})
+            m = {"ravel_of": b, "param_derived": b.meta.get("param") or b.meta.get("param_derived")}
+            if b.ndim == 2 and grid_axes(b) == (0, 1) and (b.meta.get("spec") is not None or b.meta.get("spec1d") or b.meta.get("meshgrid") or b.meta.get("modegrid")):
+                m["flatmodes"] = b  # row-major: the mean mode [0, 0] is element 0
+            return Arr((t,), b.val, dt, m)
         if name == "reshape":
             shp = args[0] if len(args) == 1 else Tup(args)
             if isinstance(shp, Tup) and all(isinstance(x, Expr) for x in shp.items):
-                return Arr(tuple(shp.items), b.val, b.dtype, dict(b.meta))
+                m = dict(b.meta)
+                new_shape = tuple(shp.items)
+                if (b.ndim == 3 and len(new_shape) == 2 and dim_eq(new_shape[0], b.shape[0]) and dim_eq(new_shape[1], b.shape[1] * b.shape[2])
+                        and grid_axes(b) == (1, 2)):
+                    m["flatmodes"] = b  # (levels, ny, nx) -> (levels, ny*nx): the mean mode is column 0
+                    m.pop("spec", None)
+                    register_mode_dim(new_shape[1])
+                elif "flatmodes" in m:
+                    m.pop("flatmodes")
+                return Arr(new_shape, b.val, b.dtype, m)
             return Arr(None, b.val, b.dtype, dict(b.meta))
         if name == "tolist":
             return Opaque("list-of-array", {"of": b})
@@ -1233,6 +1298,8 @@ def np_meshgrid(I, args, kwargs, node):
         m = {"varies_along": ax}
         if "spec" in x.meta:
             m["spec"] = x.meta["spec"]
+        if x.meta.get("spec1d") or x.meta.get("modegrid"):
+            m["modegrid"] = True  # wave numbers: one value per Fourier mode
         out.append(Arr(shape, x.val, x.dtype, m))
     return Tup(out, "list")
 
@@ -1337,6 +1404,8 @@ def np_sort(I, args, kwargs, node):
             return Arr(x.shape, alg.fn("gather", x.val, alg.fn("permidx", "asc", x.val)), x.dtype, {"sorted": True, "sorted_of": x})
         tag = "sort(%s)@%s:%s" % (x.name or "?", I.cur_mod.name, node.lineno)
         return Arr(x.shape, alg.fn("elem", alg.sym(tag)), x.dtype, {"sorted": True, "sorted_of": x})
+    if isinstance(x, Opaque):
+        return Opaque("sorted(%s)" % x.name, {"sorted_of": x})  # a definite, different value: the entries in ascending order
     return Unknown("np.sort")
 
 
@@ -1416,6 +1485,52 @@ def _reverse(x):
     return Unknown("reversed array")
 
 
+def np_concatenate(I, args, kwargs, node):
+    parts = args[0]
+    if not isinstance(parts, Tup) or kwargs.get("axis") not in (None,) and const_int(kwargs.get("axis")) != 0:
+        return Unknown("np.concatenate")
+    arrs = []
+    for p in parts.items:
+        if isinstance(p, Tup) and all(isinstance(x, Expr) for x in p.items):
+            p = np_array(I, [p], {}, node)
+        if isinstance(p, Expr):
+            return Unknown("np.concatenate of a scalar")
+        if not (isinstance(p, Arr) and p.ndim == 1):
+            return Unknown("np.concatenate")
+        arrs.append(p)
+    n = ZERO
+    for p in arrs:
+        n = n + p.shape[0]
+    dt = arrs[0].dtype
+    for p in arrs[1:]:
+        dt = join_dtype(dt, p.dtype)
+    if (len(arrs) == 2 and dim_is_one(arrs[0].shape[0]) and isinstance(arrs[0].val, Expr) and arrs[0].val.is_zero()
+            and "gen" in arrs[1].meta and arrs[1].meta.get("cumsum_of") is not None):
+        # a zero followed by inclusive prefix sums: the exclusive prefix sums, which are zero at position 0 as well
+        g = arrs[1].meta["gen"]
+        gen = lambda k, g=g: g(k - ONE)
+        return Arr((n,), gen(alg.fn("idx", n, integer=True)), dt, {"gen": gen})
+    return Arr((n,), Unknown("concatenated array"), dt, {})
+
+
+def np_isin(I, args, kwargs, node):
+    a, b = args[0], args[1]
+    if isinstance(a, Arr) and a.ndim == 1:
+        m = {"ident": "isin@%s" % getattr(node, "lineno", 0)}
+        ar = a.meta.get("arange")
+        if ar is not None and ar[0].is_zero() and ar[2].eq(ONE) and isinstance(b, Arr) and b.ndim == 1 and b.meta.get("sorted_unique"):
+            m["positions_of"] = b  # mask over range(n) that is true exactly at the (sorted, distinct) entries of b
+        return Arr(a.shape, Unknown("membership mask"), "bool", m)
+    return Unknown("np.isin")
+
+
+def np_count_nonzero(I, args, kwargs, node):
+    x = args[0]
+    if isinstance(x, Arr) and x.meta.get("positions_of") is not None:
+        return x.meta["positions_of"].shape[0]  # entries assumed in range, as the membership loop assumes
+    return Unknown("np.count_nonzero")
+
+
 def np_roll(I, args, kwargs, node):
     x, shift = args[0], _kw(args, kwargs, 1, "shift")
     if isinstance(x, Arr) and x.ndim == 1 and isinstance(x.val, Expr) and isinstance(shift, Expr) and kwargs.get("axis") is None:
@@ -1460,7 +1575,7 @@ def fftfreq(I, args, kwargs, node):
     if not (isinstance(n, Expr) and isinstance(d, Expr)):
         return Unknown("fftfreq")
     k = ZERO if I.ctx == "mean" else alg.fn("fftidx", n, integer=True)
-    return Arr((n,), k / (n * d), "float", {"spec1d": True, "fftfreq": (n, d)})
+    return Arr((n,), k / (n * d), "float", {"spec1d": True, "modegrid": True, "fftfreq": (n, d)})
 
 
 def _spec_axes_ok(I, x, kwargs, node, fname):
@@ -1600,6 +1715,9 @@ EXT = {
     "numpy.linspace": np_linspace,
     "numpy.arange": np_arange,
     "numpy.roll": np_roll,
+    "numpy.concatenate": np_concatenate,
+    "numpy.isin": np_isin,
+    "numpy.count_nonzero": np_count_nonzero,
     "numpy.sqrt": unary(alg.sqrt),
     "numpy.exp": unary(alg.exp),
     "numpy.log": unary(alg.log),
